@@ -275,7 +275,7 @@ func (c *FnCtx) declare(st *State, id *ast.Ident, v *Val) {
 		return
 	}
 	if v.Typ == nil || !types.Identical(v.Typ, obj.Type()) {
-		v = &Val{T: v.T, S: v.S, Typ: obj.Type(), Fields: v.Fields, Box: v.Box, Fn: v.Fn, FnObj: v.FnObj, Recv: v.Recv}
+		v = &Val{T: v.T, S: v.S, Typ: obj.Type(), Fields: v.Fields, Box: v.Box, Fn: v.Fn, FnObj: v.FnObj, Recv: v.Recv, Ext: v.Ext}
 		if ns := c.sortOf(obj.Type()); ns != v.S && ns != SNone && v.S != SNone {
 			v = c.coerce(v, ns)
 			v.S = ns
